@@ -23,6 +23,14 @@ type c08bCase struct {
 	Recursive   bool    `json:"recursive"`
 	Opt         bool    `json:"optimize"`
 	Many        bool    `json:"many,omitempty"` // File: Item+ (used by the C29 lookahead family)
+	// Nested: every item is first recognised inside a lookahead (`Wrap: (?= Chk) Item; Chk: Item`),
+	// so the decision code also runs while another predicate is being evaluated.
+	Nested bool `json:"nested,omitempty"`
+	// Stream: tokenStream = true.
+	Stream bool `json:"stream,omitempty"`
+	// Deep: `lalr(2)`, and predicate Pj (j <= M-3) is written so that recognising it needs two
+	// tokens of lookahead: `Bit^j A Bit 'T' | Bit^j B Bit 'F'` with A: 'T'; B: 'T'.
+	Deep bool `json:"deep,omitempty"`
 }
 
 func c08bGen(t *rapid.T) c08bCase {
@@ -31,6 +39,9 @@ func c08bGen(t *rapid.T) c08bCase {
 		Recursive:   rapid.Bool().Draw(t, "recursive"),
 		Opt:         rapid.Bool().Draw(t, "optimize"),
 	}
+	c.Nested = c.Recursive && rapid.Bool().Draw(t, "nested")
+	c.Stream = rapid.IntRange(0, 2).Draw(t, "stream") == 0
+	c.Deep = rapid.IntRange(0, 2).Draw(t, "deep") == 0
 	if rapid.IntRange(0, 3).Draw(t, "anySet") == 0 {
 		c.C = c08Gen(t) // any set, most are rejected by the compiler
 		return c
@@ -53,9 +64,23 @@ func c08bGen(t *rapid.T) c08bCase {
 	return c
 }
 
+// tail is what follows the bits and ';' of an item decided as alternative alt.
+func (c *c08bCase) tail(alt int) string {
+	if !c.Nested {
+		return ""
+	}
+	return strings.Repeat("T", alt) + ";"
+}
+
 func (c *c08bCase) render(name string) string {
 	var sb strings.Builder
-	fmt.Fprintf(&sb, "language %s(go);\n\npackage = \"scratch/%s\"\neventBased = true\ncancellable = %v\nrecursiveLookaheads = %v\noptimizeTables = %v\n\n:: lexer\n\n'T': /T/\n'F': /F/\n';': /;/\n\n:: parser\n\n%%input File;\n\nFile:\n    Item%s ;\n\nItem:\n", name, name, c.Cancellable, c.Recursive, c.Opt, map[bool]string{true: "+", false: ""}[c.Many])
+	fmt.Fprintf(&sb, "language %s(go);\n\npackage = \"scratch/%s\"\neventBased = true\ncancellable = %v\nrecursiveLookaheads = %v\noptimizeTables = %v\ntokenStream = %v\n\n:: lexer\n\n'T': /T/\n'F': /F/\n';': /;/\n\n:: parser%s\n\n%%input File;\n\nFile:\n    %s%s ;\n\n", name, name, c.Cancellable, c.Recursive, c.Opt, c.Stream,
+		map[bool]string{true: " lalr(2)", false: ""}[c.Deep], map[bool]string{true: "Wrap", false: "Item"}[c.Nested], map[bool]string{true: "+", false: ""}[c.Many])
+	if c.Nested {
+		// (the second alternative is never taken on a valid input: Chk is the item itself)
+		sb.WriteString("Wrap:\n    (?= Chk) Item\n  | (?= !Chk) Item ';' ';' ;\n\nChk:\n    Item ;\n\n")
+	}
+	sb.WriteString("Item:\n")
 	for i, a := range c.C.Alts {
 		var ps []string
 		for _, p := range a.Preds {
@@ -69,15 +94,30 @@ func (c *c08bCase) render(name string) string {
 		if i == 0 {
 			sep = "    "
 		}
-		fmt.Fprintf(&sb, "%s(?= %s) Body -> Alt%d\n", sep, strings.Join(ps, " & "), i)
+		// nested: every alternative ends differently, so that a wrong decision inside the
+		// lookahead makes the lookahead fail
+		tail := ""
+		if c.Nested {
+			tail = strings.Repeat(" 'T'", i) + " ';'"
+		}
+		fmt.Fprintf(&sb, "%s(?= %s) Body%s -> Alt%d\n", sep, strings.Join(ps, " & "), tail, i)
 	}
 	sb.WriteString(";\n\nBody:\n   ")
 	for j := 0; j < c.C.M; j++ {
 		sb.WriteString(" Bit")
 	}
 	sb.WriteString(" ';' ;\n\nBit:\n    'T' | 'F' ;\n\n")
+	deepUsed := false
 	for j := 0; j < c.C.M; j++ {
+		if c.Deep && j <= c.C.M-3 {
+			deepUsed = true
+			fmt.Fprintf(&sb, "P%d:\n   %s TA Bit 'T'\n  |%s TB Bit 'F' ;\n\n", j, strings.Repeat(" Bit", j), strings.Repeat(" Bit", j))
+			continue
+		}
 		fmt.Fprintf(&sb, "P%d:\n   %s 'T' ;\n\n", j, strings.Repeat(" Bit", j))
+	}
+	if deepUsed {
+		sb.WriteString("TA:\n    'T' ;\n\nTB:\n    'T' ;\n\n")
 	}
 	return sb.String()
 }
@@ -92,7 +132,13 @@ func laAdapter(g *grammar.Grammar, files map[string]string) map[string]string {
 		ctxArg = "context.Background(), "
 	}
 	fmt.Fprintf(&sb, "package %s\n\nimport (\n\t%s\n)\n\n", g.Name, imports)
-	sb.WriteString("func VerifRun(entry int, src string, arg string) string {\n\tvar sb strings.Builder\n\tvar l Lexer\n\tl.Init(src)\n\tvar p Parser\n\tp.Init(func(t NodeType, offset, endoffset int) { fmt.Fprintf(&sb, \"%v,\", t) })\n")
+	sb.WriteString("func VerifRun(entry int, src string, arg string) string {\n\tvar sb strings.Builder\n\tlistener := func(t NodeType, offset, endoffset int) { fmt.Fprintf(&sb, \"%v,\", t) }\n")
+	if g.Options.TokenStream {
+		sb.WriteString("\tvar l TokenStream\n\tl.Init(src, listener)\n")
+	} else {
+		sb.WriteString("\tvar l Lexer\n\tl.Init(src)\n")
+	}
+	sb.WriteString("\tvar p Parser\n\tp.Init(listener)\n")
 	fmt.Fprintf(&sb, "\terr := p.Parse(%s&l)\n", ctxArg)
 	sb.WriteString("\tif err != nil {\n\t\treturn sb.String() + \"|err \" + err.Error()\n\t}\n\treturn sb.String() + \"|ok\"\n}\n")
 	return map[string]string{"verif_export.go": sb.String()}
@@ -129,7 +175,7 @@ func c08bCheck(c c08bCase, res *batch.Result, run runFunc, r *ev.Recorder) *Fail
 				src.WriteString("F ")
 			}
 		}
-		src.WriteString(";")
+		src.WriteString(";" + c.tail(sat[0]))
 		out, pan, err := c19Run(run, 0, strings.ReplaceAll(src.String(), " ", ""), "")
 		r.Eval(1)
 		where := fmt.Sprintf("input %q; grammar:\n%s", src.String(), c.render("g"))
@@ -158,7 +204,7 @@ func c08bCheck(c c08bCase, res *batch.Result, run runFunc, r *ev.Recorder) *Fail
 func TestC08B(t *testing.T) {
 	p := &batchProp[c08bCase]{
 		ID:        "C08",
-		Rule:      "generated code: the C08 generator's sets of 2..5 lookahead alternatives over 1..4 predicates, rendered as `Item: (?= P0 & !P1) Body -> Alt0 | ...` where predicate Pj is the nonterminal `Bit^j 'T'` (token j of the input is 'T') and Body is M bits and ';'; options cancellable, recursiveLookaheads, optimizeTables on/off. Sets the compiler rejects are outside this test (the rejection rule is checked in process by TestC08). Every input of M bits is a truth assignment; for each assignment that satisfies exactly one conjunction the generated parser must accept and report that alternative's node. Non-trivial: an accepted set with >= 2 decided assignments; distinct by case JSON.",
+		Rule:      "generated code: the C08 generator's sets of 2..5 lookahead alternatives over 1..4 predicates, rendered as `Item: (?= P0 & !P1) Body -> Alt0 | ...` where predicate Pj is the nonterminal `Bit^j 'T'` (token j of the input is 'T') and Body is M bits and ';'; options cancellable, recursiveLookaheads, optimizeTables, tokenStream on/off; half of the recursive cases recognise every item inside a lookahead first (`Wrap: (?= Chk) Item | (?= !Chk) Item ';' ';'; Chk: Item`, alternative i then ends in i extra 'T' and a ';': the decision code runs nested and a wrong nested decision makes Chk fail), a third are lalr(2) with predicates that need two tokens of lookahead themselves. Sets the compiler rejects are outside this test (the rejection rule is checked in process by TestC08). Every input of M bits is a truth assignment; for each assignment that satisfies exactly one conjunction the generated parser must accept and report that alternative's node. Non-trivial: an accepted set with >= 2 decided assignments; distinct by case JSON.",
 		Quick:     64, Thorough: 1280, BatchSize: 64,
 		Gen:       c08bGen,
 		Unit: func(c c08bCase, name string) (batch.Unit, bool) {
